@@ -136,6 +136,115 @@ for I, impl in (('i15', 'br_ec_prime_i15'), ('i31', 'br_ec_prime_i31')):
           {(3, 8): whole('sk.x')})
 
 
+# ---- declassification marks are assertions the analysis trusts; every one must be justified on each run
+CONTRACT_MARKS = {
+    # (function, marked object): reason
+    ('br_rsa_i15_private', 'mq'): 'announced bit length of the prime factor q: key size, "these lengths are not considered secret" (rsa_i15_priv.c)',
+    ('br_rsa_i15_private', 't1'): 'announced bit length of the prime factor p (same comment)',
+    ('br_rsa_i31_private', 'mq'): 'announced bit length of q (rsa_i31_priv.c)',
+    ('br_rsa_i31_private', 't1'): 'announced bit length of p (rsa_i31_priv.c)',
+}
+
+
+def mark_justification(chk):
+    """A memory mark BR_VERIF_PUBLIC_MEM(p, n) makes the cell public for the whole analysis (the memory model is flow-insensitive).
+    It is accepted only (a) right after a store, in the same block, to that very address, of a value computed without reading the
+    marked object and without any call result (the mark then only documents the strong update the engine cannot see), or (b) when it is
+    listed in CONTRACT_MARKS with the source comment it relies on.  Anything else is an unjustified mark."""
+    R = 'declassification-marks-justified'
+    units = flow.all_units()
+    n = 0
+    for un, d in sorted(units.items()):
+        U = irf.Units({un: d})
+        for fn, F in sorted(U.funcs.items()):
+            names = {}
+            for b in F.blocks:
+                for i in b['insts']:
+                    if i['op'] == 'dbgvalue' and i['ops'][0]['k'] in ('i', 'a'):
+                        names.setdefault((i['ops'][0]['k'], i['ops'][0]['v']), i['var'])
+            for b in F.blocks:
+                ins = [i for i in b['insts'] if i['op'] != 'dbgvalue']
+                for k, i in enumerate(ins):
+                    if i['op'] != 'call' or i.get('callee') != 'br_verif_public_mem':
+                        continue
+                    n += 1
+                    p = F.strip_casts(i['ops'][0])
+                    pname = names.get((p['k'], p.get('v'))) if p['k'] in ('i', 'a') else None
+                    inst = '%s: mark on %s (line %s)' % (fn, pname or 'object', i.get('line'))
+                    if (fn, pname) in CONTRACT_MARKS:
+                        chk.ok(R, inst, F.where(i), 'contract: ' + CONTRACT_MARKS[(fn, pname)])
+                        continue
+                    kk = k - 1
+                    while kk >= 0 and ins[kk]['op'] in ('bitcast', 'getelementptr'):
+                        kk -= 1
+                    prev = ins[kk] if kk >= 0 else None
+                    okk = False
+                    det = 'not preceded by a store to the marked address'
+                    if prev is not None and prev['op'] == 'store' and F.addr_of(prev['ops'][1]) == F.addr_of(i['ops'][0]) and F.addr_of(prev['ops'][1])[1] is not None:
+                        # value: no call result, no load from the marked object
+                        base = F.addr_of(i['ops'][0])[0]
+                        seen, st, bad = set(), [prev['ops'][0]], None
+                        while st:
+                            o = st.pop()
+                            if o['k'] != 'i' or o['v'] in seen:
+                                continue
+                            seen.add(o['v'])
+                            j = F.insts[o['v']]
+                            if j['op'] == 'call':
+                                bad = 'the stored value comes from a call'
+                                break
+                            if j['op'] == 'load':
+                                if F.addr_of(j['ops'][0])[0] == base:
+                                    bad = 'the stored value is read from the marked object itself'
+                                    break
+                                continue
+                            st.extend(j['ops'])
+                        okk = bad is None
+                        det = bad or 'strong update of a value computed from other (public) headers / lengths'
+                    if okk:
+                        chk.ok(R, inst, F.where(i), det)
+                    else:
+                        chk.violation(R, inst, F.where(i), 'unjustified declassification mark: %s' % det, key='%s %s %s' % (R, fn, pname))
+    chk.floor('memory marks examined', n, 8)
+
+
+def bits2int_order(chk):
+    """the cells marked in br_ecdsa_iXX_bits2int are blind spots of the flow analysis, so the order that makes them safe is
+    checked structurally: a store to the header word dominates the br_iXX_rshift call and comes after the decoding call"""
+    R = 'bits2int-public-header-before-shift'
+    for w in ('i15', 'i31'):
+        src = 'src/ec/ecdsa_%s_bits.c' % w
+        u = build.load_unit(src)
+        F = irf.Units({'u': u}).func('br_ecdsa_%s_bits2int' % w)
+        if F is None:
+            raise AnalysisBroken('br_ecdsa_%s_bits2int vanished' % w)
+        dec, rsh = F.calls('br_%s_decode' % w), F.calls('br_%s_rshift' % w)
+        inst = 'br_ecdsa_%s_bits2int: header := public length between decode and rshift' % w
+        okk = False
+        if len(dec) == 1 and len(rsh) == 1:
+            for i in F.insts.values():
+                if i['op'] == 'store' and F.addr_of(i['ops'][1]) == ({'k': 'a', 'v': 0}, 0) and F.dominates(dec[0]['id'], i['id']) and F.dominates(i['id'], rsh[0]['id']):
+                    v = i['ops'][0]
+                    # the value must not be loaded from x
+                    seen, st, bad = set(), [v], False
+                    while st:
+                        o = st.pop()
+                        if o['k'] != 'i' or o['v'] in seen:
+                            continue
+                        seen.add(o['v'])
+                        j = F.insts[o['v']]
+                        if j['op'] == 'call' or (j['op'] == 'load' and F.addr_of(j['ops'][0])[0] == {'k': 'a', 'v': 0}):
+                            bad = True
+                        st.extend(j['ops'] if j['op'] not in ('load', 'call') else [])
+                    if not bad:
+                        okk = True
+        if okk:
+            chk.ok(R, inst, F.where())
+        else:
+            chk.violation(R, inst, F.where(), 'br_%s_rshift runs over the bit length recorded by the decoding of a possibly secret value (the RFC 6979 nonce): '
+                          'its loop count reveals the top bits of that value' % w, key='%s %s' % (R, w))
+
+
 def run_entry(e, units):
     pol = Policy(e['rules'], nonct=e['nonct'])
     pol.ptr_rules = e['ptr_rules']
@@ -245,6 +354,8 @@ def run(tier):
                        trusted=['clang 14 -O0 + mem2reg IR', 'sa/flow.py', 'policy table in sa/checks/c08.py'])
     import multiprocessing as mp
     positive_controls(chk)
+    mark_justification(chk)
+    bits2int_order(chk)
     flow.all_units()
     with mp.get_context('fork').Pool(min(16, len(ENTRIES))) as pool:
         res = pool.map(_worker, range(len(ENTRIES)))
